@@ -5,16 +5,17 @@ import vlib
 from checks import mpcommon as mp
 
 
-def save_leg(chk, tier, label="json-save"):
+def save_leg(chk, tier, label="json-save", arch="json"):
     quick = tier == "quick"
-    cfg = mp.write_cfg("mc_savejson.cfg", "SPECIFICATION Spec\nCONSTANT MaxMembers = %d\nINVARIANTS SpecRoundTrip Export\n" % (1 if quick else 3))
-    r = vlib.tlc("MC_SaveJson", cfg=cfg, timeout=3000, xmx="6g")
-    chk.add_tlc("MC_SaveJson", r, {"MaxMembers": 1 if quick else 3})
+    mod, trace = ("MC_SaveJson", "Trace_SaveJson") if arch == "json" else ("MC_SaveXml", "Trace_SaveXml")
+    cfg = mp.write_cfg("mc_save%s.cfg" % arch, "SPECIFICATION Spec\nCONSTANT MaxMembers = %d\nINVARIANTS SpecRoundTrip Export\n" % (1 if quick else 3))
+    r = vlib.tlc(mod, cfg=cfg, timeout=3000, xmx="6g")
+    chk.add_tlc(mod, r, {"MaxMembers": 1 if quick else 3})
     scen = r.printed("GEN")
     rows = [{"id": "js%d" % i, "root": s["root"], "opt": s["opt"]} for i, s in enumerate(scen)]
     sp = os.path.join(vlib.scratch(), "savejson.ndjson")
     vlib.write_ndjson(sp, rows)
-    obs = vlib.run_resumable([mp.harness(256, "json"), "save", sp], timeout=1800)
+    obs = vlib.run_resumable([mp.harness(256, arch), "save", sp], timeout=1800)
     lines = []
     for o in obs:
         if "e" in o:
@@ -23,24 +24,27 @@ def save_leg(chk, tier, label="json-save"):
         o["root"] = rows[o["run"]]["root"]
         o["opt"] = rows[o["run"]]["opt"]
         lines.append(json.dumps(o))
-    checked, bad = vlib.validate_traces("Trace_SaveJson", lines)
+    checked, bad = vlib.validate_traces(trace, lines)
     byid = None
     for b in bad:
         if byid is None:
             byid = {json.loads(l)["id"]: json.loads(l) for l in lines}
-        chk.fail("JSON save: %s" % b["why"], {"record": byid[b["id"]], "verdict": b})
-    chk.add_cases(len(rows), distinct_keys=(("jsave", json.dumps(x["root"]), json.dumps(x["opt"])) for x in rows), validated=checked)
+        dev = b["why"][4:] if b["why"].startswith("dev:") else None
+        chk.fail("%s save: %s" % (arch.upper(), b["why"]), {"record": byid[b["id"]], "verdict": b}, dev=dev)
+    chk.add_cases(len(rows), distinct_keys=((arch + "save", json.dumps(x["root"]), json.dumps(x["opt"])) for x in rows), validated=checked)
     if lines:
         t = json.loads(lines[len(lines) // 2])
         chk.sample({"leg": label, "script": t["root"], "opt": t["opt"], "memory_output": bytes(t["mem"]).decode("utf-8", "replace")[:200]})
 
 
-def load_leg(chk, tier, mode, constants, invariants, media=("mem", "sstream", "short3"), label=None):
-    sc = mp.gen("MC_LoadScript", dict({"Arch": '"json"', "Mode": '"%s"' % mode, "Pads": "{0}"}, **constants), invariants, "json-" + mode, chk, timeout=3000, xmx="6g")
-    pairs = mp.replay(sc, list(media), 8, "j" + mode[0], "json")
-    mp.judge(chk, pairs, label or ("JSON %s load" % mode))
-    chk.add_cases(len(pairs), distinct_keys=(("jload", json.dumps(s["doc"]), json.dumps(s["root"]), json.dumps(s["pol"])) for s in sc), validated=len(pairs))
+def load_leg(chk, tier, mode, constants, invariants, media=("mem", "sstream", "short3"), label=None, arch="json"):
+    sc = mp.gen("MC_LoadScript", dict({"Arch": '"%s"' % arch, "Mode": '"%s"' % mode, "Pads": "{0}" if arch == "json" else "{2}"}, **constants),
+                invariants, arch + "-" + mode, chk, timeout=3000, xmx="6g")
+    pairs = mp.replay(sc, list(media), 8, arch[0] + mode[0], arch)
+    mp.judge(chk, pairs, label or ("%s %s load" % (arch.upper(), mode)))
+    chk.add_cases(len(pairs), distinct_keys=((arch + "load", json.dumps(s["doc"]), json.dumps(s["root"]), json.dumps(s["pol"])) for s in sc), validated=len(pairs))
+    chk.cov.setdefault("unspecified_scenarios", {})[arch + "-" + mode] = sum(1 for s in sc if s["exp"]["exc"] == ["unspecified"])
     if sc:
         s = sc[len(sc) // 2]
-        chk.sample({"leg": "json-" + mode, "document": bytes(s["doc"]).decode("latin-1")[:160], "meta": s["meta"], "script": s["root"], "expected": s["exp"]})
+        chk.sample({"leg": arch + "-" + mode, "document": bytes(s["doc"]).decode("latin-1")[:160], "meta": s["meta"], "script": s["root"], "expected": s["exp"]})
     return len(sc)
